@@ -457,6 +457,9 @@ class ExcelCompiler:
             # the reset below starts from a cell that is not None
             cell_or_range.value = 0 if value is None else value
 
+            # results stored in the workbook file no longer match its inputs
+            self._stored_results_stale = True
+
             # reset the node + its dependencies
             if not self.cycles:
                 self._reset(cell_or_range)
@@ -723,8 +726,12 @@ class ExcelCompiler:
             # stick in queue to add edges
             self.graph_todos.append(node)
 
+        # once an input was written, stored formula results are not loaded
+        stale = getattr(self, '_stored_results_stale', False)
+
         def build_cell(excel_cell):
-            a_cell = self.Cell(excel_cell.address, value=excel_cell.values,
+            value = None if stale and excel_cell.formula else excel_cell.values
+            a_cell = self.Cell(excel_cell.address, value=value,
                                formula=excel_cell.formula, excel=self.excel)
             self.cell_map[str(excel_cell.address)] = a_cell
             return [a_cell]
@@ -737,6 +744,8 @@ class ExcelCompiler:
             if isinstance(excel_range.formula, tuple):
                 for addr, value, formula in a_range.cells_to_build(excel_range):
                     if addr.address not in self.cell_map:
+                        if stale and formula:
+                            value = None
                         a_cell = self.Cell(addr, value, formula, self.excel)
                         self.cell_map[addr.address] = a_cell
                         added.append(a_cell)
